@@ -60,7 +60,7 @@ theorem object_layerShape {ms : Members} {isTop : Bool} {env : EId} {layer : Lay
     (hacc : ObjAcc ms { isTop := isTop, locals := memberLocals ms, baseEnv := some env, env := none,
                         fields := [], asserts := memberAsserts ms } layer) : LayerShape layer := by
   obtain ⟨fs, rfl, hfs⟩ := hacc
-  exact ⟨fun _ _ _ => rfl, fun _ => rfl, fun f hf => (hfs f hf).2.2⟩
+  exact ⟨fun _ _ _ _ => rfl, fun _ => rfl, fun f hf => (hfs f hf).2.2⟩
 
 theorem member_taskOk {a b : St} {env : EId} {Γ : AEnv} {ms : Members} {m : Members} {d : Nat}
     (hk : EnvOk a.envs env Γ) (hS : S a b) (hws : WSObj ms Γ) (hm : m ∈ membersList ms) :
@@ -141,7 +141,7 @@ theorem comp_layerShape {envs : Array Env} {Γ' : AEnv} {isTop : Bool} {body : E
     (hacc : CompAcc envs Γ' isTop body (compLayer0 isTop locals) layer) : LayerShape layer := by
   obtain ⟨fs, rfl, hfs⟩ := hacc
   refine ⟨?_, fun h => absurd rfl h, ?_⟩
-  · intro f hf hb
+  · intro f hf hb _
     obtain ⟨b', g1, _⟩ := hfs f hf
     rw [g1] at hb; cases hb
   · intro f hf
